@@ -958,4 +958,97 @@ theorem walkDecl_eq_declRules (env : Env) (reg : Registry) (m : Resolved) (ns : 
       ↔ x ∈ declRules { keys := env.keys, defaultDeriving := env.defaultDeriving, reg := reg } env.file ns d :=
   fun x => reported_walkDecl env reg m ns d hb x
 
+/-! ### per file: namespaces at any depth -/
+
+mutual
+theorem reported_walkContent (e : Env) (reg : Registry) (m : Resolved) (ns : List String) (c : Content)
+    (hb : Binds m reg (walkContent e ns c).refs) (x : Diag) :
+    Reported m reg (walkContent e ns c) x
+      ↔ ∃ p ∈ declsOfContent ns c, x ∈ declRules (specEnvOf e reg) e.file p.1 p.2 := by
+  cases c with
+  | decl d =>
+    simp only [walkContent] at hb ⊢
+    simp only [declsOfContent, List.mem_singleton, exists_eq_left]
+    exact reported_walkDecl e reg m ns d hb x
+  | ns name cm children pos =>
+    simp only [walkContent] at hb ⊢
+    simp only [declsOfContent]
+    exact reported_walkContents e reg m _ children hb x
+theorem reported_walkContents (e : Env) (reg : Registry) (m : Resolved) (ns : List String) (cs : List Content)
+    (hb : Binds m reg (walkContents e ns cs).refs) (x : Diag) :
+    Reported m reg (walkContents e ns cs) x
+      ↔ ∃ p ∈ declsOfContents ns cs, x ∈ declRules (specEnvOf e reg) e.file p.1 p.2 := by
+  cases cs with
+  | nil =>
+    simp only [walkContents, declsOfContents, List.not_mem_nil, false_and, exists_false, iff_false]
+    exact reported_empty m reg x
+  | cons c cs =>
+    simp only [walkContents, Collected.refs_append] at hb
+    simp only [walkContents, declsOfContents, List.mem_append]
+    rw [reported_append, reported_walkContent e reg m ns c hb.left x, reported_walkContents e reg m ns cs hb.right x]
+    constructor
+    · rintro (⟨p, hp, h⟩ | ⟨p, hp, h⟩)
+      · exact ⟨p, Or.inl hp, h⟩
+      · exact ⟨p, Or.inr hp, h⟩
+    · rintro ⟨p, hp | hp, h⟩
+      · exact Or.inl ⟨p, hp, h⟩
+      · exact Or.inr ⟨p, hp, h⟩
+end
+
+/-! ### the registry of the specification is the registry the file is finished with -/
+
+theorem regDefs_walkDecl (e : Env) (ns : List String) (d : Decl) :
+    (walkDecl e ns d).regs.map siteDef = [{ key := declKey ns d, prim := declPrim d, arity := 0 }] := by
+  cases d with
+  | enum n c items pos => simp [walkDecl, reg1, declKey, declPrim, siteDef]
+  | flags n c items pos => simp [walkDecl, reg1, declKey, declPrim, siteDef]
+  | record n c fl fp fields der pos => simp [walkDecl, reg1, declKey, declPrim, siteDef, regs_walkFields]
+  | interface n c main fl fp methods props pos =>
+    simp [walkDecl, reg1, declKey, declPrim, siteDef, regs_walkMethods, regs_walkProps]
+  | function n c sig pos => simp [walkDecl, declKey, declPrim, siteDef, regs_walkF]
+  | error n c codes pos => simp [walkDecl, reg1, declKey, declPrim, siteDef, regs_walkCodes]
+
+mutual
+theorem regDefs_walkContent (e : Env) (ns : List String) (c : Content) :
+    (walkContent e ns c).regs.map siteDef
+      = (declsOfContent ns c).map (fun p => { key := declKey p.1 p.2, prim := declPrim p.2, arity := 0 }) := by
+  cases c with
+  | decl d => simp [walkContent, declsOfContent, regDefs_walkDecl]
+  | ns name cm children pos => simp only [walkContent, declsOfContent]; exact regDefs_walkContents e _ children
+theorem regDefs_walkContents (e : Env) (ns : List String) (cs : List Content) :
+    (walkContents e ns cs).regs.map siteDef
+      = (declsOfContents ns cs).map (fun p => { key := declKey p.1 p.2, prim := declPrim p.2, arity := 0 }) := by
+  cases cs with
+  | nil => rfl
+  | cons c cs =>
+    simp only [walkContents, declsOfContents, Collected.regs_append', List.map_append]
+    rw [regDefs_walkContent e ns c, regDefs_walkContents e ns cs]
+end
+
+theorem progDecls_single (file : String) (contents : List Content) :
+    progDecls [{ file := file, contents := contents }]
+      = (declsOfContents [] contents).map (fun p => (file, p.1, p.2)) := by
+  simp [progDecls]
+
+/-- registering a file's declarations on top of `pre` gives the registry the specification reads the
+    one-file program against: same definitions, same order -/
+theorem registerAll_eq_progRegistry (e : Env) (pre reg : Registry) (contents : List Content)
+    (h : registerAll pre (walkContents e [] contents).regs = .ok reg) :
+    reg = progRegistry pre [{ file := e.file, contents := contents }] := by
+  rw [registerAll_ok_eq pre reg _ h, regDefs_walkContents]
+  simp [progRegistry, progDecls_single, List.map_map, Function.comp_def]
+
+theorem mem_violations_single (keys dd : List String) (pre : Registry) (file : String) (contents : List Content) (x : Diag) :
+    x ∈ violations keys dd pre [{ file := file, contents := contents }]
+      ↔ ∃ p ∈ declsOfContents [] contents,
+          x ∈ declRules { keys := keys, defaultDeriving := dd, reg := progRegistry pre [{ file := file, contents := contents }] } file p.1 p.2 := by
+  unfold violations
+  rw [progDecls_single]
+  simp only [List.mem_flatMap, List.mem_map]
+  constructor
+  · rintro ⟨q, ⟨p, hp, rfl⟩, hx⟩
+    exact ⟨p, hp, hx⟩
+  · rintro ⟨p, hp, hx⟩
+    exact ⟨_, ⟨p, hp, rfl⟩, hx⟩
+
 end Pydjinni.Front
